@@ -705,10 +705,13 @@ theorem repeatArr_wf {a a' : Arr} {k : Nat} {toks : List Tok} (hw : WF a) (h : r
   split at h; · cases h
   rename_i hb
   cases h
-  have hlen' : toks.length = a.coord.length * (a.n * k) := by
-    have : toks.length = k * a.coord.length * a.n := by simpa using hlen
-    rw [this, Nat.mul_comm k, Nat.mul_assoc, Nat.mul_comm k]
-  have hch := chunks_spec (a.n * k) a.coord.length toks hlen'
+  have hch : (repCoord a.n k a.coord.length toks).length = a.coord.length ∧
+      ∀ c ∈ repCoord a.n k a.coord.length toks, c.length = a.n * k := by
+    refine ⟨by simp [repCoord], ?_⟩
+    intro c hc
+    simp only [repCoord, List.mem_map] at hc
+    obtain ⟨m, _, rfl⟩ := hc
+    simp
   refine ⟨?_, hch.2, ?_, ?_, ?_⟩
   · intro p hp; simp only [List.mem_map] at hp; obtain ⟨q, hq, rfl⟩ := hp
     simp [tile_length, hw.cols q hq, Nat.mul_comm]
